@@ -112,7 +112,7 @@ class LiveDispatcher(CallbackBase):
         id_args = id_args or (doc["descriptor"],)
         config = config or dict()  # noqa: C408
         # Determine the descriptor id
-        desc_id = frozenset((tuple(doc["data"].keys()), stream_name, id_args))
+        desc_id = (tuple(doc["data"].keys()), stream_name, id_args)
         # If we haven't described this configuration
         # Send a new document to our subscribers
         if stream_name not in self._descriptors or desc_id not in self._descriptors[stream_name]:
